@@ -1,6 +1,7 @@
 import MoneroModel.Model.Address
 import MoneroModel.Model.AmountText
 import MoneroModel.Model.Extra
+import MoneroModel.Gen.Arith
 /-! # Panic-explicit models (C04)
 
 The models of C12 / C15 / C16 / C01 are written over `List`, `Nat` and `Int`, where `take`, `drop`, `-` and `+` are
@@ -72,7 +73,9 @@ def addrTypeOfP (net : Net) (bytes : Bytes) : Out (Kind × Bytes) :=
       -- regenerated range is a panic site of its own (`&bytes[65..72]` is a legal slice and a panicking payment id)
       if k = .Integrated ∧ pid.length ≠ 8 then .panic "PaymentId::from_slice: assert_eq!(src.len(), 8)" else .ok (k, pid)
 
-/-- `Address::from_bytes` with its eight index / slice expressions explicit; `H` = `keccak_256` (a 32-byte array in the
+/-- `Address::from_bytes` with its eight index / slice expressions explicit (`bytes[0]`, `&bytes[1..33]`, `&bytes[33..65]`,
+`&bytes[0..65]`, `&bytes[65..69]`, `&bytes[0..73]`, `&bytes[73..77]`, `&verify_checksum[0..4]`; two more, `bytes[0]` and the
+payment-id slice, are in `addrTypeOfP`); `H` = `keccak_256` (a 32-byte array in the
 library; the theorem asks for at least 4 bytes) -/
 def fromBytesP (H : Bytes → Bytes) (validKey : Bytes → Bool) (bytes : Bytes) : Out Address :=
   if bytes.isEmpty || bytes.length < 65 then .err else
@@ -181,14 +184,15 @@ def padLoopP : Nat → Nat → Extra.Rd (Out Extra.SubField)
         | .err => (some .err, xs)
         | .panic s => (some (.panic s), xs)
 
-/-! ## `VarInt::consensus_decode` (encode.rs:354-384): `res.split_last().unwrap()` needs a non-empty group list; the
-shift `int << 7` happens only after `leading_zeros() >= 7`, i.e. `int < 2^57`, so no set bit leaves the `u64` -/
+/-! ## `VarInt::consensus_decode` (encode.rs:354-384): ONE panic site, `res.split_last().unwrap()`, which needs a non-empty group
+list. The shift `int << 7` is NOT a panic site: a shift by a constant below the bit width never panics, also in a checked build —
+bits shifted out of the `u64` are silently lost. It is modelled as what it is, a wrapping shift (`% 2^64`); that no set bit is
+lost (the shift happens only after `leading_zeros() >= 7`, i.e. `int < 2^57`) is part of the VALUE claim `accumP = accum`. -/
 def accumP : List Nat → Nat → Out Nat
   | [], _ => .panic "VarInt::consensus_decode: res.split_last().unwrap()"
   | [last], int => .ok (int + last)
   | g :: g' :: rest, int =>
-    if int + g < 2 ^ 57 then
-      (if (int + g) * 128 < 2 ^ 64 then accumP (g' :: rest) ((int + g) * 128) else .panic "VarInt::consensus_decode: int << 7 loses bits")
+    if int + g < 2 ^ 57 then accumP (g' :: rest) ((int + g) * 128 % 2 ^ 64)   -- `int << 7` on a u64: wraps, never panics
     else .err
 
 /-! ## ring size in `Transaction::consensus_decode` (transaction.rs:1038-1054): `&prefix.inputs[0]` -/
@@ -217,23 +221,43 @@ def Out.ofOption {α} : Option α → Out α
 /-- `usize::saturating_add` on `bits` bits -/
 def satAddU (bits a b : Nat) : Nat := min (a + b) (2 ^ bits - 1)
 
-/-- section 2 (ring signatures) with the machine arithmetic of the column count explicit: since the fix commit
-"fix: RctSigPrunable::consensus_decode computes the MLSAG column count with saturating_add" the count is
-`inputs.saturating_add(1)` (it was `1 + inputs`, which overflowed — a panic in checked builds — for `inputs = usize::MAX`) -/
-def sigsDecP (ty inputs mixin : Nat) (b : Bytes) : Out ((List MG × List Clsag) × Bytes) :=
+/-- the MLSAG column count `inputs + 1` as a source computes it: `plain = true` is the bare `1 + inputs` on a `usize` (overflow
+panics in a checked build); otherwise the std method `op` of `usize` evaluated with its documented semantics (`StdOp.eval`;
+`None` of a checked form would be an `Err` return); a source in which the site is not recognised is treated as panicking, so
+that the no-panic theorem cannot be proved about a source the model does not describe -/
+def mgColsWith (plain : Bool) (op : Option StdOp) (inputs : Nat) : Out Nat :=
+  if plain then addU 64 "RctSigPrunable::consensus_decode: 1 + inputs" 1 inputs
+  else match op with
+    | none => .panic "RctSigPrunable::consensus_decode: MLSAG column count computed in an unrecognised way"
+    | some o =>
+      match StdOp.eval TyU64 o (inputs : Int) 1 with   -- usize = u64 on the 64-bit targets the harness builds for
+      | some v => .ok v.toNat
+      | none => .err
+
+/-- section 2 (ring signatures) with the machine arithmetic of the column count explicit, the operator being a PARAMETER -/
+def sigsDecPW (plain : Bool) (op : Option StdOp) (ty inputs mixin : Nat) (b : Bytes) : Out ((List MG × List Clsag) × Bytes) :=
   if ty = 5 ∨ ty = 6 then .ofOption (sigsDec ty inputs mixin b)
   else if ty = 2 ∨ ty = 3 ∨ ty = 4 then .ofOption (sigsDec ty inputs mixin b)
   else
-    let cols := satAddU 64 inputs 1
+    (mgColsWith plain op inputs).bind fun cols =>
     .ofOption ((bind (rep (mgDec cols mixin) 1) fun ms => pure' (ms, ([] : List Clsag))) b)
 
 /-- `RctSigPrunable::consensus_decode(r, rct_type, inputs, outputs, mixin)`: every argument is the caller's -/
-def prunableP (ty inputs outputs mixin : Nat) (b : Bytes) : Out (Option Prunable × Bytes) :=
+def prunablePW (plain : Bool) (op : Option StdOp) (ty inputs outputs mixin : Nat) (b : Bytes) : Out (Option Prunable × Bytes) :=
   if ty = 0 then .ok (none, b) else
   (Out.ofOption (proofsDec ty outputs b)).bind fun (pf, r1) =>
-  (sigsDecP ty inputs mixin r1).bind fun (sg, r2) =>
+  (sigsDecPW plain op ty inputs mixin r1).bind fun (sg, r2) =>
   (Out.ofOption (pseudoDec ty inputs r2)).bind fun (po, r3) =>
   .ok (some ⟨pf.1, pf.2.1, pf.2.2, sg.1, sg.2, po⟩, r3)
+
+/-- … with the operator READ FROM THE SOURCE on every run (`Gen.mgColsOp`, `Gen.mgColsPlain`, regenerated by the translator from
+`let mg_ss2_elements = if is_simple_or_bp { 2 } else { … }`): since the fix commit "fix: RctSigPrunable::consensus_decode
+computes the MLSAG column count with saturating_add" it is `inputs.saturating_add(1)` (it was `1 + inputs`, which overflowed — a
+panic in checked builds — for `inputs = usize::MAX`) -/
+def sigsDecP (ty inputs mixin : Nat) (b : Bytes) : Out ((List MG × List Clsag) × Bytes) :=
+  sigsDecPW Gen.mgColsPlain Gen.mgColsOp ty inputs mixin b
+def prunableP (ty inputs outputs mixin : Nat) (b : Bytes) : Out (Option Prunable × Bytes) :=
+  prunablePW Gen.mgColsPlain Gen.mgColsOp ty inputs outputs mixin b
 
 /-- the expression `match &prefix.inputs[0] { ToKey{key_offsets,..} => key_offsets.len().checked_sub(1) …, _ => 0 }`
 ALONE, without the guards that precede it in the source: it panics on an empty input list -/
@@ -297,10 +321,21 @@ def signedToStringInP (a : Int) (d : Denom) : Out Bytes :=
    else .ok a.natAbs).bind fun picos =>
   fmtPiconeroInP picos (decide (a < 0)) d
 
-/-- `SignedAmount::from_str_in`: the negation of `piconero as i64` comes after the `> i64::MAX` test -/
-def signedFromStrInP (s : Bytes) (d : Denom) : Out Int :=
+/-- `x as i64` for a `u64` value `x`: the two's-complement reinterpretation (a cast never panics, it WRAPS): values from
+`2^63` on become negative, `2^63` becomes `i64::MIN` -/
+def castI64 (q : Nat) : Int :=
+  let x : Nat := q % 2 ^ 64
+  if x < 2 ^ 63 then (x : Int) else (x : Int) - (2 : Int) ^ 64
+
+/-- `SignedAmount::from_str_in` with the guard as a parameter (`guarded = true` is the Rust function; `false` is the function
+with the `if piconero > i64::max_value() as u64 { return Err(TooBig) }` test removed). The operand of the negation is the
+WRAPPED cast `piconero as i64`, so without the test the site fires for `piconero = 2^63` (`-(i64::MIN)`). -/
+def signedFromStrInG (guarded : Bool) (s : Bytes) (d : Denom) : Out Int :=
   (parseSignedToPiconeroP s d).bind fun (neg, q) =>
-  if q > I64MAX then .err
-  else if neg then negI64 "SignedAmount::from_str_in: -(piconero as i64)" (q : Int) else .ok (q : Int)
+  if guarded ∧ q > I64MAX then .err
+  else if neg then negI64 "SignedAmount::from_str_in: -(piconero as i64)" (castI64 q) else .ok (castI64 q)
+
+/-- `SignedAmount::from_str_in`: the negation of `piconero as i64` comes after the `> i64::MAX` test -/
+def signedFromStrInP (s : Bytes) (d : Denom) : Out Int := signedFromStrInG true s d
 
 end Monero.Panics
